@@ -770,16 +770,15 @@ LEVEL_TEXT = ('Proof: on a deep embedding of functional arithmetic (18 node clas
               'about the conjugate TREE that the convex_conj rules build: (1) f(x) + f*(y) >= <x,y>; (2) equality at y = grad f(x); '
               '(3) the Moreau decomposition prox_{sigma f}(x) + sigma prox_{f*/sigma}(x/sigma) = x whenever both proximals exist '
               '(incl. the sort-based l1-ball projection); (4) f** = f in value wherever both can be evaluated, under an explicit '
-              'side condition B -- without B the statement is proved FALSE of the faithful model and of the library '
-              '(finding defaultconj-linear-flag). The model (values, conjugate trees incl. scalar merging and the is_linear '
+              'side condition B (scalar multiples of functionals whose conjugate is flagged linear are validated only). '
+              The model (values, conjugate trees incl. scalar merging and the is_linear '
               'dispatch, proximals, gradients, exception classes) is tied to /repo by an in-Coq correspondence on random trees '
               '(class trees of f, f*, f** and all values compared). KL pairs, GroupL1, NuclearNorm, general-p norms, '
               'matrix QuadraticForm, element-valued sigma are probed only.')
 LEVEL_NOTE = ('Side conditions (wf, D, B) are spelled out in Props.v: positive left scalars, non-zero right scalars/vectors, '
-              'a >= 0, gamma > 0, no affine QuadraticPerturb of a functional flagged linear; D and B exclude corners created by the '
-              'linear flag of conjugates. Exact arithmetic (rounding and the (1 +- 10 eps) guards are outside; tolerance 1e-9). '
-              'np.sqrt enters as a function with its defining property. Three open findings with tested repairs: '
-              'QuadraticForm.convex_conj for non-self-adjoint operators violates Fenchel-Young; Huber cannot be evaluated on '
-              'array-weighted spaces; FunctionalDefaultConvexConjugate inherits the linear flag (wrong biconjugate values). '
+              'a >= 0, gamma > 0; D and B exclude corners created by the linear flag of conjugates. Exact arithmetic (rounding and the (1 +- 10 eps) guards are outside; tolerance 1e-9). '
+              'np.sqrt enters as a function with its defining property. One open finding: QuadraticForm.convex_conj for '
+              'non-self-adjoint operators violates Fenchel-Young; two fixed in /repo (Huber on array-weighted spaces, '
+              'linear flag of the default conjugate), guarded by probes. '
               'Axioms: classical reals + funext as printed.')
 TECHNIQUE = 'Coq proof by structural induction on functional expression trees + in-Coq differential correspondence'
